@@ -10,14 +10,22 @@
 (* outcome is Total.  With the switches on (the repaired defects seeded back: cfg *_cex, a      *)
 (* negative control) the non-Total outcomes are the former findings; every finished run is      *)
 (* printed as a REPLAY line (document, walker, predicted outcome and class) for the harness.   *)
+(* Scenario "chain" is the depth dimension: the long acyclic chain families of Queries!ChainDoc *)
+(* for every length in ChainLens, with the machine stack StackFrames and the walkers' budgets    *)
+(* scaled down with them.  TLC checks there that the automata agree with the closed forms        *)
+(* ChainOutcome / ChainMaxDepth (ChainOK) and never use more stack than there is (StackOK); a    *)
+(* walker without a budget is refuted (TotalInv) by a behaviour whose stack grows with the chain.*)
 EXTENDS Queries, TLC, Json
 
 CONSTANTS N,          \* objects per document in the link scenarios (3 or 4)
           Scen,       \* scenarios explored
-          Emit        \* print REPLAY lines
+          Emit,       \* print REPLAY lines
+          ChainLens   \* lengths of the long acyclic chains of scenario "chain" (around and beyond every limit)
 
-VARIABLES doc, sc, w, arg, s, steps
-vars == <<doc, sc, w, arg, s, steps>>
+VARIABLES doc, sc, w, arg, s, steps,
+          fam, len,   \* scenario "chain": the family and the length of the chain ("" / 0 otherwise)
+          md          \* greatest recursion depth reached so far (frames beyond the walker's first)
+vars == <<doc, sc, w, arg, s, steps, fam, len, md>>
 
 -----------------------------------------------------------------------------
 (* kind classes *)
@@ -163,14 +171,41 @@ WInit(ww, d, a) ==
       [] ww = "img"   -> ImgInit(d, a)
       [] ww = "pages" -> PgInit(d)
 
+\* the runs made on a chain document: the walker that follows the chain, started on the page / the document,
+\* on the head and in the middle of the chain
+ChainRuns(f, L) ==
+    LET mid == ChainHead + (L \div 2) IN
+    CASE f = "parent"   -> {<<"rsrc", 3>>, <<"rsrc", ChainHead>>, <<"rsrc", mid>>, <<"pages", 0>>}
+      [] f = "first"    -> {<<"outl", 0>>, <<"toc", 0>>}
+      [] f = "next"     -> {<<"outl", 0>>, <<"toc", 0>>}
+      [] f = "kids"     -> {<<"nd", ChainHead>>, <<"nd", mid>>, <<"outl", 0>>, <<"toc", 0>>}
+      [] f = "kidswide" -> {<<"nd", ChainHead>>, <<"outl", 0>>}
+      [] f = "pagekids" -> {<<"pages", 0>>, <<"nd", 2>>, <<"nd", ChainHead>>}
+      [] f = "contents" -> {<<"cont", 3>>}
+      [] f = "refchain" -> {<<"deref", ChainHead>>, <<"cont", 3>>, <<"rsrc", 3>>, <<"outl", 0>>}
+
+\* recursion depth of the walker state: frames beyond its first
+Depth(ww, st) ==
+    LET below(q) == IF Len(q) = 0 THEN 0 ELSE Len(q) - 1 IN
+    CASE ww = "rsrc" -> st.depth
+      [] ww = "nd"   -> below(st.stack)
+      [] ww \in {"outl", "toc"} -> IF st.pc = "nd" THEN below(st.nd.stack) ELSE below(st.stack)
+      [] OTHER -> 0
+
 Init ==
-    \E x \in Scen : \E d \in Universe(x) : \E r \in Runs(x) :
+    \/ \E x \in Scen \ {"chain"} : \E d \in Universe(x) : \E r \in Runs(x) :
         /\ sc = x /\ doc = d /\ w = r[1] /\ arg = r[2]
         /\ s = WInit(r[1], d, r[2])
-        /\ steps = 0
+        /\ steps = 0 /\ fam = "" /\ len = 0 /\ md = 0
+    \/ /\ "chain" \in Scen
+       /\ \E f \in ChainFams : \E L \in ChainLens : \E r \in ChainRuns(f, L) :
+            /\ sc = "chain" /\ doc = ChainDoc(f, L) /\ w = r[1] /\ arg = r[2]
+            /\ s = WInit(r[1], ChainDoc(f, L), r[2])
+            /\ steps = 0 /\ fam = f /\ len = L /\ md = 0
 
 Running(ww) == w = ww /\ s.pc \notin Final
-Advance     == steps' = steps + 1 /\ UNCHANGED <<doc, sc, w, arg>>
+Advance     == /\ steps' = steps + 1 /\ UNCHANGED <<doc, sc, w, arg, fam, len>>
+               /\ md' = IF Depth(w, s') > md THEN Depth(w, s') ELSE md
 
 \* one action per walker (top-level disjuncts of Next, so that TLC's coverage names them)
 StepDeref == /\ Running("deref") /\ s' = DerefStep(doc, s) /\ Advance
@@ -207,6 +242,17 @@ Bounded == steps <= Bound
 \* recursion depth of the guarded recursion (already_seen) never exceeds the number of objects
 RsrcDepth == w = "rsrc" => s.depth <= NObj(doc)
 
+\* the depth dimension: no walker uses more frames than the machine stack has ...
+StackOK == md + 1 <= StackFrames \/ (w = "rsrc" /\ md <= StackFrames)
+\* ... and on the chain families outcome and greatest depth are the closed forms of Queries (which Trace_Queries
+\* evaluates for the recorded chains of up to 100 000 links)
+ChainOK ==
+    (sc = "chain" /\ s.pc \in Final) =>
+        /\ [pc |-> s.pc, cls |-> s.cls] = ChainOutcome(fam, len, w, arg)
+        /\ md = ChainMaxDepth(fam, len, w, arg)
+        /\ (w = "rsrc" /\ arg = 3 /\ s.pc = "ok") => Len(s.ids) = ChainRsrcN(fam, len)
+        /\ (w = "cont" /\ arg = 3 /\ s.pc = "ok") => Len(s.out) = ChainContN(fam, len)
+
 \* liveness: every run finishes
 Terminates == <>(s.pc \in Final)
 
@@ -215,5 +261,5 @@ Result == CASE w = "cont" -> s.out [] w = "rsrc" -> s.ids [] w = "pages" -> s.ou
 EmitInv ==
     (Emit /\ s.pc \in Final) =>
         PrintT(<<"REPLAY", ToJson([sc |-> sc, doc |-> doc, w |-> w, arg |-> arg, pc |-> s.pc, cls |-> s.cls,
-                                   res |-> Result, steps |-> steps])>>)
+                                   res |-> Result, steps |-> steps, fam |-> fam, len |-> len, md |-> md])>>)
 =============================================================================
